@@ -39,7 +39,7 @@ from ..errors import (
 )
 from ..repository import AbstractSearchResult, FetchResult, InterRepository
 from ..revision import NULL_REVISION, RevisionID
-from .errors import NoPushSupport
+from .errors import BzrGitError, NoPushSupport
 from .fetch import DetermineWantsRecorder, import_git_objects
 from .mapping import needs_roundtripping
 from .object_store import get_object_store
@@ -295,9 +295,28 @@ class InterToLocalGitRepository(InterToGitRepository):
                     try:
                         old_git_id = old_refs[name][0]
                     except KeyError:
-                        self.target_refs.add_if_new(name, gitid)
+                        updated = self.target_refs.add_if_new(name, gitid)
                     else:
-                        self.target_refs.set_if_equals(name, old_git_id, gitid)
+                        # A symbolic ref is updated through the ref it points
+                        # at, so that ref's value is the one to expect.
+                        seen = set()
+                        while (
+                            old_git_id is not None
+                            and old_git_id.startswith(SYMREF)
+                            and old_git_id not in seen
+                        ):
+                            seen.add(old_git_id)
+                            old_git_id = old_refs.get(
+                                old_git_id[len(SYMREF) :], (ZERO_SHA, None)
+                            )[0]
+                        updated = self.target_refs.set_if_equals(
+                            name, old_git_id, gitid
+                        )
+                    if not updated:
+                        raise BzrGitError(
+                            f"unable to update ref {name!r}: "
+                            "it was changed by someone else"
+                        )
                     result_refs[name] = (
                         gitid,
                         revid
